@@ -100,15 +100,29 @@ func (e *Env) privateTo(fn *ssa.Function, base func(*ssa.Function) bool) bool {
 }
 
 func (e *Env) privateToRec(fn *ssa.Function, base func(*ssa.Function) bool, busy map[*ssa.Function]bool) bool {
-	obj, _ := fn.Object().(*types.Func)
-	if obj == nil || obj.Exported() || fn.Parent() != nil || fn.Synthetic != "" {
-		return false
-	}
 	if busy[fn] {
 		return true // a cycle among helpers adds no outside caller
 	}
 	busy[fn] = true
 	defer delete(busy, fn)
+	if fn.Parent() != nil {
+		// a function literal of a function table runs for the functions that look the table up and call the
+		// element (ir/functab.go)
+		callers, ok := ir.TableCallers(fn)
+		if !ok {
+			return false
+		}
+		for _, c := range callers {
+			if !base(c) && !e.privateToRec(c, base, busy) {
+				return false
+			}
+		}
+		return true
+	}
+	obj, _ := fn.Object().(*types.Func)
+	if obj == nil || obj.Exported() || fn.Synthetic != "" {
+		return false
+	}
 	ci := e.callersOf(fn)
 	if ci.AsValue || len(ci.Callers) == 0 {
 		return false
@@ -273,6 +287,9 @@ func (e *Env) inlineHelpers(except ...*types.Func) func(*ssa.Function) bool {
 		}
 	}
 	return func(fn *ssa.Function) bool {
+		if fn.Pkg == nil && fn.Origin() != nil && len(fn.Blocks) > 0 {
+			fn = fn.Origin() // an instance of a generic helper is a helper when the generic function is
+		}
 		if fn.Pkg == nil || fn.Parent() != nil || len(fn.Blocks) == 0 {
 			return false
 		}
